@@ -68,6 +68,8 @@ def replay(case, acc):
         B.check_bcrypt_pair(pw, h, exp, acc, "replay")
     elif part == "s2v":
         B.check_s2v(case["key"], case["comps"], acc)
+    elif part == "s2v-limit":
+        B.t_s2v_limit(("s2v-limit",), acc)
     elif part == "carriers":
         B.t_carriers(("carriers",), acc)
     elif part == "s2v-history":
